@@ -140,7 +140,43 @@ fn finish<T>(o: Outcome<Result<T, T>>, flat: impl Fn(&T) -> Vec<f64>, fc: u64, j
 
 /// Build ONE Newton object and call the entry point once per element of `limits` (the limit is
 /// changed with `iterations()` between calls). Second component: description of a `parameters()` mismatch.
+thread_local! {
+    /// re-entrant mode: the user function handed to Newton itself uses the library's Newton / Jacobian routines (an
+    /// implicitly defined term obtained by an inner solve is ordinary user code)
+    static REENTER: Cell<bool> = Cell::new(false);
+    static INNER_BAD: Cell<u32> = Cell::new(0);
+    static INNER_DEPTH: Cell<u32> = Cell::new(0);
+    static INNER_LEFT: Cell<u32> = Cell::new(0);
+}
+fn inner_library_calls() {
+    if !REENTER.with(|r| r.get()) || INNER_DEPTH.with(|d| d.get()) > 0 { return; }
+    // (the first few evaluations of each solve are enough to meet any state the outer call holds on to)
+    if INNER_LEFT.with(|c| { let v = c.get(); if v > 0 { c.set(v - 1); } v }) == 0 { return; }
+    INNER_DEPTH.with(|d| d.set(1));
+    let mut bad = false;
+    let mut n1 = Newton::<f64>::new(3.0); n1.tolerance(1e-10); n1.iterations(30);
+    match n1.solve(&|t: f64| t * t - 4.0) { Ok(t) => if (t - 2.0).abs() > 1e-6 { bad = true; }, Err(_) => bad = true }
+    let mut n2 = Newton::<Vec64>::new(Vector::create(vec![0.5, 0.25])); n2.tolerance(1e-10); n2.iterations(30);
+    match n2.solve(&|v: Vec64| Vector::create(vec![v[0] + v[1] - 3.0, v[0] * v[0] - v[1] - 3.0])) { Ok(v) => if (v[0] - 2.0).abs() > 1e-6 || (v[1] - 1.0).abs() > 1e-6 { bad = true; }, Err(_) => bad = true }
+    let j = Mat64::jacobian(Vector::create(vec![1.0, 2.0]), &|v: Vec64| Vector::create(vec![2.0 * v[0] + 3.0 * v[1], v[0] - v[1]]), 2f64.powi(-10));
+    if !(j.rows() == 2 && j.cols() == 2 && j[(0, 0)] == 2.0 && j[(0, 1)] == 3.0 && j[(1, 0)] == 1.0 && j[(1, 1)] == -1.0) { bad = true; }
+    let mut n3 = Newton::<Cmplx>::new(Cmplx::new(0.5, 1.5)); n3.tolerance(1e-10); n3.iterations(40);
+    match n3.solve(&|z: Cmplx| z * z + Cmplx::new(1.0, 0.0)) { Ok(z) => if z.real.abs() > 1e-6 || (z.imag - 1.0).abs() > 1e-6 { bad = true; }, Err(_) => bad = true }
+    if bad { INNER_BAD.with(|b| b.set(b.get() + 1)); }
+    INNER_DEPTH.with(|d| d.set(0));
+}
+
 fn run_lib(p: &Prob, cfg: &Cfg, limits: &[usize]) -> (Vec<LibRes>, Option<String>) {
+    // (one case in 48 runs with re-entrant user functions; decided from the configuration, hence replayable)
+    let reenter = (cfg.tol.to_bits() ^ cfg.guess[0].to_bits().rotate_left(17) ^ cfg.delta.to_bits()) % 48 == 0;
+    REENTER.with(|r| r.set(reenter));
+    INNER_LEFT.with(|c| c.set(6));
+    let r = run_lib_inner(p, cfg, limits);
+    REENTER.with(|r| r.set(false));
+    r
+}
+
+fn run_lib_inner(p: &Prob, cfg: &Cfg, limits: &[usize]) -> (Vec<LibRes>, Option<String>) {
     let mut out = Vec::with_capacity(limits.len());
     let mut pm: Option<String> = None;
     let per = p.per_iter();
@@ -155,7 +191,7 @@ fn run_lib(p: &Prob, cfg: &Cfg, limits: &[usize]) -> (Vec<LibRes>, Option<String
                 let calls = Cell::new(0u64);
                 let log = RefCell::new(Vec::<u64>::new());
                 let cap = per * k as u64 + BUDGET_SLACK;
-                let fw = |x: f64| -> f64 {
+                let fw = |x: f64| -> f64 { inner_library_calls();
                     let c = calls.get() + 1;
                     calls.set(c);
                     if c > cap { std::panic::panic_any(StepBudget); }
@@ -183,7 +219,7 @@ fn run_lib(p: &Prob, cfg: &Cfg, limits: &[usize]) -> (Vec<LibRes>, Option<String
                 let calls = Cell::new(0u64);
                 let log = RefCell::new(Vec::<u64>::new());
                 let cap = per * k as u64 + BUDGET_SLACK;
-                let fw = |z: Cmplx| -> Cmplx {
+                let fw = |z: Cmplx| -> Cmplx { inner_library_calls();
                     let c = calls.get() + 1;
                     calls.set(c);
                     if c > cap { std::panic::panic_any(StepBudget); }
@@ -212,7 +248,7 @@ fn run_lib(p: &Prob, cfg: &Cfg, limits: &[usize]) -> (Vec<LibRes>, Option<String
                 let log = RefCell::new(Vec::<u64>::new());
                 let cap = per * k as u64 + BUDGET_SLACK;
                 let jcap = k as u64 + BUDGET_SLACK;
-                let fw = |v: Vec64| -> Vec64 {
+                let fw = |v: Vec64| -> Vec64 { inner_library_calls();
                     let c = calls.get() + 1;
                     calls.set(c);
                     if c > cap { std::panic::panic_any(StepBudget); }
@@ -222,7 +258,7 @@ fn run_lib(p: &Prob, cfg: &Cfg, limits: &[usize]) -> (Vec<LibRes>, Option<String
                 let o = match jac {
                     None => catch(|| nw.solve(&fw)),
                     Some(jf) => {
-                        let jw = |v: Vec64| -> Mat64 {
+                        let jw = |v: Vec64| -> Mat64 { inner_library_calls();
                             let c = jcalls.get() + 1;
                             jcalls.set(c);
                             if c > jcap { std::panic::panic_any(StepBudget); }
@@ -248,7 +284,7 @@ fn run_lib(p: &Prob, cfg: &Cfg, limits: &[usize]) -> (Vec<LibRes>, Option<String
                 let log = RefCell::new(Vec::<u64>::new());
                 let cap = per * k as u64 + BUDGET_SLACK;
                 let jcap = k as u64 + BUDGET_SLACK;
-                let fw = |v: Vector<Cmplx>| -> Vector<Cmplx> {
+                let fw = |v: Vector<Cmplx>| -> Vector<Cmplx> { inner_library_calls();
                     let c = calls.get() + 1;
                     calls.set(c);
                     if c > cap { std::panic::panic_any(StepBudget); }
@@ -258,7 +294,7 @@ fn run_lib(p: &Prob, cfg: &Cfg, limits: &[usize]) -> (Vec<LibRes>, Option<String
                 let o = match jac {
                     None => catch(|| nw.solve(&fw)),
                     Some(jf) => {
-                        let jw = |v: Vector<Cmplx>| -> Matrix<Cmplx> {
+                        let jw = |v: Vector<Cmplx>| -> Matrix<Cmplx> { inner_library_calls();
                             let c = jcalls.get() + 1;
                             jcalls.set(c);
                             if c > jcap { std::panic::panic_any(StepBudget); }
@@ -561,8 +597,10 @@ fn judge(st: &mut Stats, rng: &mut Rng, p: &Prob, cfg: &Cfg, kmax: usize, cert: 
     let mut judged_step = false;
 
     // --- two solves on one object: termination, bounds, parameters, repeatability
+    INNER_BAD.with(|b| b.set(0));
     let (rs, pm) = run_lib(p, cfg, &[kmax, kmax]);
     st.evals_add(2);
+    if INNER_BAD.with(|b| b.get()) > 0 { st.violation(&sig(kind, "reentrant-inner-call-wrong"), format!("a Newton solve / Jacobian made INSIDE the user function of an outer solve came out wrong; {}", desc())); }
     if let Some(m) = pm { st.violation(&sig(kind, "parameters-changed"), format!("{}; {}", m, desc())); }
     let a = basic(st, p, kmax, &rs[0], &desc);
     let b = basic(st, p, kmax, &rs[1], &desc);
